@@ -534,20 +534,42 @@ def isDefineComponentCall (st : St) (call : Node) : Bool :=
     | none => false
   | _ => false
 
+/-- `is_option_named(prop, name)`: does this entry define the option, however it is spelled? -/
+def isOptionNamed (p : Node) (name : String) : Bool :=
+  let keyIs (k : Node) : Bool :=
+    match k with
+    | .mk .ident (n :: _) _ => n == name
+    | .mk .str (v :: _) _ => v == name
+    | .mk .computed _ [.mk .str (v :: _) _] => v == name
+    | _ => false
+  match p with
+  | .mk .ident (n :: _) _ => n == name                       -- shorthand
+  | .mk .kv _ (k :: _) => keyIs k
+  | .mk .getterProp _ (k :: _) => keyIs k
+  | .mk .methodProp _ (k :: _) => keyIs k
+  | _ => false
+
+def isSpreadProp : Node → Bool
+  | .mk .spreadElement _ _ => true
+  | _ => false
+
+/-- insert before the first spread, or append when there is none -/
+def insertBeforeFirstSpread (props : List Node) (entry : Node) : List Node :=
+  match props with
+  | [] => [entry]
+  | p :: rest => if isSpreadProp p then entry :: p :: rest else p :: insertBeforeFirstSpread rest entry
+
 /-- `inject_define_component_option(call, name, value)` -/
 def injectOption (call : Node) (name : String) (value : Node) : Node :=
   match call with
   | .mk .call as [callee, .mk .list las args, ta] =>
     let entry := nKV (nIdentName name) value
+    let isSpreadArg (a : Node) : Bool := match a with | .mk .spreadArg _ _ => true | _ => false
+    if (args.take 2).any isSpreadArg then call else
     match (args[1]? : Option Node) with
-    | some (.mk .spreadArg _ _) => call
     | some (.mk .arg _ [.mk .object oas [.mk .list pas props]]) =>
-      let has := props.any fun p =>
-        match p with
-        | .mk .kv _ [.mk .ident (k :: _) _, _] => k == name
-        | _ => false
-      if has then call
-      else .mk .call as [callee, .mk .list las (args.take 1 ++ [nArg (.mk .object oas [.mk .list pas (props ++ [entry])])] ++ args.drop 2), ta]
+      if props.any (isOptionNamed · name) then call
+      else .mk .call as [callee, .mk .list las (args.take 1 ++ [nArg (.mk .object oas [.mk .list pas (insertBeforeFirstSpread props entry)])] ++ args.drop 2), ta]
     | some (.mk .arg _ [e]) =>
       .mk .call as [callee, .mk .list las (args.take 1 ++ [nArg (nObject [entry, nSpreadElement e])] ++ args.drop 2), ta]
     | some _ => call
